@@ -973,7 +973,8 @@ Proof.
   - split; [exact I|]. intros c [].
   - fold (norm (x :: s)).
     assert (HI : Inv 1 MCode 1 []).
-    { unfold Inv. cbn [front rchain]. repeat split; try lia. intros c []. }
+    { unfold Inv. cbn [front rchain].
+      split; [lia|split; [lia|split; [intros c []|exact I]]]. }
     destruct (spec_lex_inv L (norm (x :: s)) 0 MCode 1 0 [] 1 HI) as [Hc Hl].
     split; [exact Hc|]. intros c Hin. destruct (Hl _ Hin) as (G1 & G2 & G3).
     destruct (norm_shape (x :: s)) as (u & E & _). rewrite E in G3 |- *.
@@ -1052,10 +1053,7 @@ Example c_row_spec : spec_parse c_row c_input =
   [ {| c_start := 1; c_end := 1; c_text := [32;99] |};
     {| c_start := 2; c_end := 2; c_text := [32;97;32] |};
     {| c_start := 2; c_end := 2; c_text := [] |} ].
-Proof.
-  pose proof (lex_equiv c_row c_input (proj2 c_row_wf)) as H.
-  rewrite c_row_parse in H. injection H as <-. reflexivity.
-Qed.
+Proof. vm_compute. reflexivity. Qed.
 
 Print Assumptions lex_equiv.
 Print Assumptions lex_equiv_wf.
